@@ -4,7 +4,9 @@ from __future__ import annotations
 from typing import Callable, Optional
 
 from ..core.model import AnalysisError, Program, mutated_source
-from ..core.report import CheckContext
+import os
+
+from ..core.report import VERIF, CheckContext
 
 
 def run_control(ctx: CheckContext, name: str, analyse: Callable, root: str, relpath: str, old: str, new: str,
@@ -14,17 +16,29 @@ def run_control(ctx: CheckContext, name: str, analyse: Callable, root: str, relp
     compared with the unmodified tree.  When the anchor text is absent from the current tree the
     control is skipped and recorded as such."""
     ov = mutated_source(root, relpath, old, new, count)
+    where = "current tree"
+    base_bad = {(o.rule, o.key) for o in ctx.obligations if not o.ok}
     if ov is None:
-        ctx.control(name, "fires" if expect_fire else "silent", "skipped", skipped=True, note="anchor text not present in current tree")
-        return
+        # the anchor text has drifted: exercise the rule on the frozen reference tree instead, so the control never vanishes
+        ref = os.path.join(VERIF, "fixtures", "reference")
+        ov = mutated_source(ref, relpath, old, new, count) if os.path.isdir(ref) else None
+        if ov is None:
+            ctx.control(name, "fires" if expect_fire else "silent", "skipped", skipped=True, note="anchor text present neither in the current nor in the reference tree")
+            return
+        root, where = ref, "reference tree (anchor text not present in current tree)"
+        base = CheckContext(ctx.prop, ctx.tier)
+        try:
+            analyse(base, Program(ref))
+        except AnalysisError:
+            pass
+        base_bad = {(o.rule, o.key) for o in base.obligations if not o.ok}
     sub = CheckContext(ctx.prop, ctx.tier)
     try:
         analyse(sub, Program(root, overrides=ov))
-        base_bad = {(o.rule, o.key) for o in ctx.obligations if not o.ok}
         new_bad = [o for o in sub.obligations if not o.ok and (o.rule, o.key) not in base_bad and o.rule.startswith(expect_rule)]
         got = "fires" if new_bad else "silent"
         note = "; ".join(f"{o.rule} {o.key}" for o in new_bad[:3])
     except AnalysisError as e:
         got = "analysis-error"
         note = str(e)
-    ctx.control(name, "fires" if expect_fire else "silent", got, note=note)
+    ctx.control(name, "fires" if expect_fire else "silent", got, note=(note + " | " if note else "") + "on " + where)
